@@ -841,29 +841,7 @@ def model_lines(cases) -> list[str]:
 # repaired by a patch under /verif/fixes/.  Once a patch is committed the failure no longer occurs; delete its entry here
 # so that a regression is a VIOLATION.
 _FIX = "fixes/C09-string-literal-taken-for-operator.patch"
-PROPOSED_KNOWN = {
-    "C09-string-dcolon-taken-for-nbt-operator": dict(
-        id="C09-string-dcolon-taken-for-nbt-operator", property="C09", fix=_FIX,
-        what='a string literal that is exactly "::" as the second token of a command is taken for the NBT operator: `me "::";` emits '
-             '`data get storage <namespace>:me`, silently (nbt_operation.get_nbt_type compares token text without the token type)',
-        match=dict(kinds=["command-not-found", "valid-literal-refused"], value_exact=["::"], carriers=["me", "me-tail"])),
-    "C09-string-colon-taken-for-objective-selector": dict(
-        id="C09-string-colon-taken-for-objective-selector", property="C09", fix=_FIX,
-        what='a string literal that is exactly ":" as the second token of a longer command is taken for objective:selector syntax: '
-             '`me ":" now;` is refused (lexer_func_content.__expect_command)',
-        match=dict(kinds=["valid-literal-refused"], value_exact=[":"], carriers=["me-tail"], msg_contains="objective:selector")),
-    "C09-string-matches-taken-for-keyword": dict(
-        id="C09-string-matches-taken-for-keyword", property="C09", fix=_FIX,
-        what='a string literal that is exactly "matches" as an argument of a command is taken for the keyword: `tellraw @a "matches";` '
-             'is refused (lexer_func_content.__not_expect_command)',
-        match=dict(kinds=["valid-literal-refused"], value_exact=["matches"], carriers=["json-str", "me", "me-tail"],
-                   msg_contains="after 'matches'")),
-    "C09-string-equals-taken-for-empty-key": dict(
-        id="C09-string-equals-taken-for-empty-key", property="C09", fix=_FIX,
-        what='a string literal that is exactly "=" as a whole argument of a built-in call is taken for an empty keyword argument: '
-             '`Text.tellraw(@a, "=");` is refused (tokenizer.__parse_func_arg)',
-        match=dict(kinds=["valid-literal-refused"], value_exact=["="], carriers=["text"], msg_contains="Empty key")),
-}
+PROPOSED_KNOWN = {}     # all former entries were repaired by fix commit dc40110 (known_findings.json is the only authority)
 
 
 def known_class(case, fail):
